@@ -53,8 +53,9 @@ def label_relations(block):
             if base is not None:
                 rel.append(("bitmap4", sn, (base,)))
         elif t == "EnumBitmap22":
-            hi = next((x for x in block["sensors"] if type(x).__name__ == "Integer" and x.offset == sn.offset), None)
-            lo = next((x for x in block["sensors"] if type(x).__name__ == "Integer" and x.offset == sn._offsetL), None)
+            # (the code words of '<x>' are the sensors named '<x>_h' and '<x>_l'; falling back to the registers the label itself names)
+            hi = ids.get(sn.id_ + "_h") or next((x for x in block["sensors"] if type(x).__name__ == "Integer" and x.offset == sn.offset), None)
+            lo = ids.get(sn.id_ + "_l") or next((x for x in block["sensors"] if type(x).__name__ == "Integer" and x.offset == sn._offsetL), None)
             if hi is not None and lo is not None:
                 rel.append(("bitmap22", sn, (hi, lo)))
     return rel
